@@ -1051,7 +1051,7 @@ func c09FromReplay(m any) (*c09Case, error) {
 
 func driveC09(c *h.Ctx) error {
 	maxLen := c.Pick(4, 5)
-	nRandom := c.Pick(1500, 20000)
+	nRandom := c.Pick(1500, 6000)
 	c.Rule(fmt.Sprintf("real BatchExecutor.HandleRequest with scripted logging handlers. (a) exhaustive: every batch of length 0..%d over the six item "+
 		"outcome classes {success, typed error, plain error, panic, unrouted operation, critical extension} x continuation option {unset, Continue, Stop, Undo}, "+
 		"item IDs present/absent alternating; (b) reject grid: every batch of length 0..2 x 4 options x version {supported, unsupported, zero} x batch count {equal, +1, -1}; "+
